@@ -16,6 +16,7 @@
 #   limitations under the License.
 #
 import logging
+from queue import Empty
 from multiprocessing import Process, Queue, Pipe
 from multiprocessing.connection import Connection
 from typing import Any, Dict, Iterable, List, Optional, Tuple, Union, cast
@@ -24,6 +25,7 @@ import pysmt
 from pysmt.solvers.solver import IncrementalTrackingSolver, SolverOptions, Solver, Model
 from pysmt.decorators import clear_pending_pop
 from pysmt.logics import convert_logic_from_string, Logic
+from pysmt.exceptions import InternalSolverError
 from pysmt.fnode import FNode
 from pysmt.utils import assert_not_none
 
@@ -158,7 +160,16 @@ class Portfolio(IncrementalTrackingSolver):
 
         failed = 0 # Number of solvers that reported an exception
         while True:
-            (sname, res) = signaling_queue.get(block=True)
+            # A process that is not alive has already flushed its message
+            alive = any(p.is_alive() for p in processes)
+            try:
+                (sname, res) = signaling_queue.get(block=True, timeout=0.1)
+            except Empty:
+                if alive:
+                    continue
+                self._ctrl_pipe = None # No solver is listening
+                raise InternalSolverError("All the solvers of the portfolio " \
+                                          "terminated without an answer")
             if isinstance(res, BaseException):
                 failed += 1
                 if cast(PortfolioOptions, self.options).exit_on_exception or \
